@@ -75,6 +75,11 @@ def judge_check_decoder(ctx, case):
         got, err = h.decode_base58_checksum(s), None
     except Exception as e:  # noqa
         got, err = None, e
+        if kind != "valid":
+            try:                       # a refusal has to be stable: asked again straight away it is refused again
+                got, err = h.decode_base58_checksum(s), None
+            except Exception as e2:  # noqa
+                err = e2
     cls = "chk|%s|%s" % (case.get("tag", ""), kind)
     if kind == "valid":
         if err is not None:
